@@ -6,6 +6,9 @@ from .core import hx
 NAMES = ["a", "b", "named-pipe-processor", "auditd-processor", "overall", ""]
 
 
+from .fam_conc import ConcFamily
+
+
 class HealthFamily(Family):
     prop = "C18"
     harness_mode = ["health"]
@@ -13,29 +16,52 @@ class HealthFamily(Family):
     uses_gen = ("NONE",)
     trusted = ["net/http/httptest, encoding/json", "GenericSyncMap as an association list; one critical section per Store / Len / Iterate"]
     assumptions = ["WaitForReady is exercised with DefaultReadyCheckInterval = 2 ms and a 60 ms observation window"]
-    rule = "exhaustive logs up to length 4 over {add, ready} x 3 names with a status request after every operation, plus random logs over 6 names (incl. 'overall' and the empty name) with requests, IsReady and WaitForReady; non-trivial = >=2 answers"
+    rule = "concurrent programs (requests racing with updates) explored at lock granularity; exhaustive logs up to length 4 over {add, ready} x 3 names with a status request after every operation, plus random logs over 6 names (incl. 'overall' and the empty name) with requests, IsReady and WaitForReady; non-trivial = >=2 answers"
+
+    conc = ConcFamily("C18", "health")
+
+    def modes_for(self, c):
+        if "threads" in c:
+            return (["conc"], ["conc"])
+        return (self.harness_mode, self.driver_args)
 
     def harness_line(self, c):
+        if "threads" in c:
+            return self.conc.harness_line(c)
         return "%s %s" % (c["id"], ";".join(c["ops"]))
 
     def driver_line(self, c, impl_obs):
+        if "threads" in c:
+            return self.conc.driver_line(c, impl_obs)
         s = self.harness_line(c)
         if impl_obs is not None:
             s += " obs=" + impl_obs
         return s
 
+    def impl_obs_for(self, c, raw):
+        return self.conc.impl_obs(raw) if "threads" in c else raw
+
     def sample(self, c):
+        if "threads" in c:
+            return self.conc.sample(c)
         return {"ops": c["ops"]}
 
     def signature(self, c, rec):
+        if "threads" in c:
+            return self.conc.signature(c, rec)
         return ";".join(c["ops"])
 
     def shrink_candidates(self, c):
+        if "threads" in c:
+            return self.conc.shrink_candidates(c)
         return [dict(c, ops=c["ops"][:i] + c["ops"][i + 1:]) for i in range(len(c["ops"])) if len(c["ops"]) > 1]
 
     def stats(self, cases, recs):
         d = {}
         for c in cases:
+            if "threads" in c:
+                d["concurrent_programs"] = d.get("concurrent_programs", 0) + 1
+                continue
             for o in c["ops"]:
                 k = o.split(":")[0]
                 d[k] = d.get(k, 0) + 1
@@ -66,6 +92,8 @@ class HealthFamily(Family):
             if rng.below(40) == 0:
                 ops.append("wait")
             cs.append({"ops": ops})
+        # snapshot clause: requests racing with registrations / ready-marks under the controlled scheduler
+        cs += self.conc.health_cases(tier, rng)
         return cs
 
     def extra_cases(self, rng, n):
